@@ -278,15 +278,20 @@ def transitiveSearch (cts : List Formula) (vars : List Var) :
         | none => none
     | none => none
 
+/-- the comparison is `t = t` -/
+def cmpReflexive (c : Cmp) : Bool :=
+  match c.2 with
+  | g :: _ => c.1 = g.term
+  | [] => false
+
 def simplifyTransitiveEquality (formula : Formula) : Formula :=
   match formula with
   | .quant .ex vars (.bin .and l r) =>
     let cts := conjoinInvert (.bin .and l r)
     match transitiveSearch cts vars with
     | some (j, c1, c2, keep, drop, dropTerm) =>
-      let reflexive : Bool := match dropTerm.2 with | g :: _ => dropTerm.1 = g.term | [] => false
       let rest :=
-        if c1 = c2 && !reflexive then cts.eraseIdx j
+        if c1 = c2 && !cmpReflexive dropTerm then cts.eraseIdx j
         else cts.filter (· ≠ .atomic (.cmp dropTerm.1 dropTerm.2))
       .quant .ex vars ((conjoin rest).subst drop keep.toTerm)
     | none => formula
